@@ -291,12 +291,19 @@ def _oracle_one(case):
     return res
 
 
+_alarm_fired = [False]
+
+
 def _oracle_chunk(chunk):
     out = []
     for c in chunk:
+        _alarm_fired[0] = False
         try:
-            signal.alarm(20)
-            out.append(_oracle_one(c))
+            signal.alarm(60)
+            r = _oracle_one(c)
+            # the watchdog's TimeoutError is raised INSIDE the program under observation, which may catch it or report it as its own
+            # exception: whatever was observed then is not a reference observation
+            out.append(r if not _alarm_fired[0] else {'id': c['id'], 'oracle_failed': 'oracle watchdog fired (60 s wall clock) while the reference run was in progress'})
         except BaseException as e:  # includes alarm
             out.append({'id': c['id'], 'oracle_failed': repr(e)})
         finally:
@@ -305,6 +312,7 @@ def _oracle_chunk(chunk):
 
 
 def _alarm(signum, frame):
+    _alarm_fired[0] = True
     raise TimeoutError('oracle watchdog')
 
 
